@@ -145,6 +145,17 @@ def run(tier: str, seed: int) -> Result:
             cuts = tuple(p for i, p in enumerate(inner) if mask >> i & 1 and p < n)
             if len(cuts) >= 3:
                 jobs.append(("equal", True, app, cuts, False))
+    # 4. large frames: sizes around 2^15 and the 16-bit maximum, whole, cut near every frame boundary, and (once) byte-wise
+    for L in (32741, 32742, 32743, 40000, 65509):
+        big = ("ST", f"BIG:{L}", "ST")
+        nb, endsb = stream_layout("equal", True, big)
+        jobs.append(("equal", True, big, (), False))
+        for e in endsb:
+            for c in (e - 1, e, e + 1, e + 3):
+                if 0 < c < nb:
+                    jobs.append(("equal", True, big, (c,), False))
+        jobs.append(("equal", True, big, tuple(range(4096, nb, 4096)), False))
+    jobs.append(("equal", True, ("ST", "BIG:32742", "ST"), (-1,), False))
     if not q:
         # <= 3 cuts on a two-frame session
         n2, ends2 = stream_layout("absent", False, ("ST",))
